@@ -163,11 +163,15 @@ def _tm_args_text(a) -> str:
     return ", ".join(f"{k}={str(a[k])[:60]}" for k in TM_SETTABLE if k in a)
 
 
-def _tm_equality(a, full: bool, raw: bytes, make=None, decode=None, cls: str = "PusTm", attr: str = "", fixed=()) -> None:
+def _tm_equality(a, full: bool, raw: bytes, make=None, decode=None, cls: str = "PusTm", attr: str = "", fixed=(),
+                 inner=None, via: str = "o") -> None:
     """`==` between telemetry packets holding the values of `a`, in every state an application can hold them (see
     core.equal_in_every_state); full=False: only the decoded / never-packed pair in both orders. make / decode: how the
     packet is built / decoded (default PusTm itself; the service-17 wrapper hands in its own and compares the `pus_tm`
-    it wraps; fixed: fields the constructor handed in does not take)"""
+    it wraps; fixed: fields the constructor handed in does not take). inner / via: for candidates that are WRAPPERS compared
+    as wrappers (Service17Tm == Service17Tm): how the PusTm the documented setters live on is reached from a candidate
+    (`inner(o)`, written `via` in the call sequences, e.g. "o.pus_tm")"""
+    inner = inner or (lambda o: o)
     n = len(a["timestamp"]) // 2
     make = make or (lambda b=None: _tm(a if b is None else b))
     decode = decode or (lambda octets: PusTm.unpack(octets, n))
@@ -185,7 +189,7 @@ def _tm_equality(a, full: bool, raw: bytes, make=None, decode=None, cls: str = "
             t = make(old)
             t = decode(bytes(t.pack()) + b"\x00") if how == "unpack" else t
             t.pack()                       # whatever the object remembers is now about the OLD values
-            _tm_mutate(t, old, a, path)
+            _tm_mutate(inner(t), old, a, path)
             return t
         return build
 
@@ -193,9 +197,9 @@ def _tm_equality(a, full: bool, raw: bytes, make=None, decode=None, cls: str = "
     different = []
     if full:
         same += [(f"{cls}(<the same arguments>){attr}; o.pack()", prepared(lambda t: t.pack())),
-                 (f"{cls}(<the same arguments>){attr}; o.calc_crc()", prepared(lambda t: t.calc_crc())),
-                 (f"{cls}(<the same arguments>){attr}; o.to_space_packet()", prepared(lambda t: t.to_space_packet())),
-                 (f"{cls}(<the same arguments>){attr}; o.pack(recalc_crc=False)", prepared(lambda t: t.pack(recalc_crc=False))),
+                 (f"{cls}(<the same arguments>){attr}; {via}.calc_crc()", prepared(lambda t: inner(t).calc_crc())),
+                 (f"{cls}(<the same arguments>){attr}; {via}.to_space_packet()", prepared(lambda t: inner(t).to_space_packet())),
+                 (f"{cls}(<the same arguments>){attr}; {via}.pack(recalc_crc=False)", prepared(lambda t: inner(t).pack(recalc_crc=False))),
                  (f"{cls}.unpack(<the same octets>, {n}){attr}", lambda: decode(raw)),
                  (f"{cls}.unpack(<the same octets>, {n}){attr}; o.pack()", lambda: _packed(decode(raw))),
                  (f"{cls}.unpack(bytearray(<the same octets>), {n}){attr}", lambda: decode(bytearray(raw)))]
@@ -212,8 +216,8 @@ def _tm_equality(a, full: bool, raw: bytes, make=None, decode=None, cls: str = "
             if old != a:
                 for path in ("tm", "hdr") if key == "apid" else ("tm",):
                     same.append((f"{cls}(<{key} = {str(old[key])[:40]}, else the same>){attr}; o.pack(); {key} set to the final value "
-                                 f"through {'the setters of PusTm (o.apid / o.tm_data) or, where it has none, ' if path == 'tm' else ''}"
-                                 f"the attributes of o.sp_header / o.pus_tm_sec_header", reached(old, path)))
+                                 f"through {'the setters of PusTm ({via}.apid / {via}.tm_data) or, where it has none, ' if path == 'tm' else ''}"
+                                 f"the attributes of {via}.sp_header / {via}.pus_tm_sec_header", reached(old, path)))
             for how, name in (("bit", key + " (one bit)"), ("longer", key + " (one octet longer)")):
                 if key in ("timestamp", "data"):
                     if how == "bit" and key == "timestamp" and not a[key]:
@@ -231,11 +235,11 @@ def _tm_equality(a, full: bool, raw: bytes, make=None, decode=None, cls: str = "
                                   lambda d=diff: _packed(make(d))))
         if far != a:
             same += [(f"{cls}(<every field but the version different>){attr}; o.pack(); every field set to the final value through the "
-                      f"setters / header attributes", reached(far, "tm")),
+                      f"setters / header attributes of {via}", reached(far, "tm")),
                      (f"{cls}.unpack(<octets of a packet with every field but the version different>, {n}){attr}; o.pack(); every field "
-                      f"set to the final value through the header attributes", reached(far, "hdr", "unpack")),
-                     (f"{cls}(<every field but the version different>){attr}; o.pack(); o.tm_data = final data; o.space_packet_header, "
-                      f"o.pus_tm_sec_header = new header objects with the final values", reached(far, "replace"))]
+                      f"set to the final value through the header attributes of {via}", reached(far, "hdr", "unpack")),
+                     (f"{cls}(<every field but the version different>){attr}; o.pack(); {via}.tm_data = final data; {via}.space_packet_header, "
+                      f"{via}.pus_tm_sec_header = new header objects with the final values", reached(far, "replace"))]
     err = core.equal_in_every_state(lambda: decode(raw), make, same, different, what=f"{cls}({_tm_args_text(a)}){attr}",
                                     decoded=f"{cls}.unpack({hx(raw)[:120]}, {n}){attr}", both_sides=full)
     if err:
@@ -357,6 +361,21 @@ def op_s17_pack(a):
                  cls="Service17Tm", attr=".pus_tm", fixed=("service", "msg_counter"))
     # (make = the plain class, decoded = out of the wrapper)
     _tm_equality(b, False, raw, decode=lambda octets: Service17Tm.unpack(octets, n).pus_tm, cls="PusTm")
+    # "also via the service-17 wrapper": the decoded WRAPPER equals the wrapper it was packed from, as wrappers - never packed,
+    # packed, its wrapped packet changed through the documented setters to the same final values, decoded twice; wrappers
+    # that differ in one field are unequal (key "eq": every state); a comparison with something that is not a wrapper
+    # does not raise (what it answers is not claimed)
+    _tm_equality(b, bool(a.get("eq")), raw, make=lambda args=None: _s17(b if args is None else args),
+                 decode=lambda octets: Service17Tm.unpack(octets, n), cls="Service17Tm", fixed=("service", "msg_counter"),
+                 inner=lambda o: o.pus_tm, via="o.pus_tm")
+    for label, other in (("PusTm(<service 17, the same fields>)", _tm(b)), ("the int 5", 5), ("None", None),
+                         ("the octets it packs to", raw)):
+        for name, x in (("Service17Tm(<the arguments>)", s), (f"Service17Tm.unpack({hx(raw)[:120]}, {n})", s2)):
+            try:
+                _ = [x == other, other == x, x != other, other != x]
+            except Exception as e:  # noqa
+                raise SelfCheckFailure(f"comparing w = {name} with {label} (w == x, x == w, w != x, x != w) raises "
+                                       f"{type(e).__name__}: {str(e)[:100]}")
     return {"raw": hx(raw), "tm": _tm_fields(s.pus_tm)}
 
 
